@@ -18,6 +18,7 @@ MODULE = 'SshAudit.Props.C05'
 NAMESPACE = 'SshAudit.C05'
 THEOREMS = ['lookup_map', 'made_policy_passes', 'made_policy_verdict', 'drift_kex', 'drift_ciphers', 'drift_macs', 'drift_hostkeys',
             'drift_hostkey_size', 'drift_ca', 'drift_modulus', 'builtin_self_pass', 'splitEq1_append', 'splitEq1_value_may_contain_eq']
+EXTENSIONS = ['props.ext.C05_file']
 TECHNIQUE = 'Lean 4 theorems over the policy model (made policy satisfies the spec; every single-attribute drift falsifies it and names the field; decide +kernel over all regenerated built-in policies) + correspondence of create/parse/evaluate with policy.py'
 LEVEL_TEXT = ('For every peer the structured policy that -M plus the parser yield is proved to pass on that peer with an empty error list, and to fail — naming the field — when any one '
               'covered attribute differs; all built-in policies (regenerated from the source each run) are proved by kernel evaluation to pass on a peer configured as listed. '
@@ -102,7 +103,10 @@ def impl_make_and_load(q):
     from ssh_audit.policy import Policy
     from ssh_audit.banner import Banner
     kex = mk_kex(q)
-    text = Policy.create('target.example', Banner.parse(q['banner_str']), kex, False)
+    try:
+        text = Policy.create('target.example', Banner.parse(q['banner_str']), kex, False)
+    except Exception as e:  # noqa: the writer itself failing is a failure of the property, not of the harness
+        return '', e
     try:
         return text, Policy(policy_data=text)
     except Exception as e:  # noqa
